@@ -316,12 +316,27 @@ def check_solve1d(case):
         raise Skip("unstable run (solution grows by more than 100x): round-off is measured against the initial integrals")
     name = P.smd["name"]
     worst = 0.0
+    jnoise = 0.0
+    if implicit:
+        # the finite-difference Jacobian perturbs variable k by 1e-6 x mean|q_k|: for a variable that is tiny but not identically zero (a gas almost at rest)
+        # the step sinks towards the round-off of the operator and the column sums of vol*J (zero for a conservative operator) carry noise ~ ulp/(1e-6 rel),
+        # rel = mean|q_k| / natural scale.  Allowance 2 ulp/(1e-6 rel); below rel = 1e-4 the linearisation is mostly noise and the run is not judged.
+        rels = []
+        for k in range(len(I0)):
+            mk = A0[k] / float(np.sum(vol))
+            sk = max(mk, _momentum_floor(P, vol, k) / float(np.sum(vol)))
+            if mk > 0 and sk > 0:
+                rels.append(mk / sk)
+        rel = min(rels) if rels else 1.0
+        if rel < 1e-4:
+            raise Skip("implicit step with a nearly (not identically) zero variable: the finite-difference Jacobian step is below the round-off resolution of the operator")
+        jnoise = 4.4e-10 / rel
     for k in range(len(I0)):
         if case["bckind"] == "sym" and k == 1:
             continue
         # the scale of momentum includes the acoustic momentum rho*c so that a gas at rest has a non-zero scale; the column sums of the finite-difference
         # Jacobian vanish only to round-off/step (~1e-10), which an implicit step multiplies by dt: the implicit tolerance grows with the CFL number
-        tol = (1e-6 * max(1.0, case["cfl"]) if implicit else 1e-13 * case["nsteps"] * max(P.n, 10)) * max(A0[k], A1[k], _momentum_floor(P, vol, k))
+        tol = ((1e-6 + jnoise) * max(1.0, case["cfl"]) if implicit else 1e-13 * case["nsteps"] * max(P.n, 10)) * max(A0[k], A1[k], _momentum_floor(P, vol, k))
         err = abs(I1[k] - I0[k])
         require(err <= tol, "solve-conservation", "variable %d: integral changes by %.3g over %d steps (%s, cfl=%g, %s/%s/%s, bc %s, %s mesh; initial %r, tol %.3g)"
                 % (k, err, case["nsteps"], case["integ"], case["cfl"], md["name"], case["flux"], case["num"].get("limiter", case["num"]["name"]), case["bckind"], case["mesh"]["kind"], I0[k], tol))
